@@ -275,105 +275,6 @@ Proof.
     + exact H.
 Qed.
 
-(* ---------------------------------------------------------------- headers *)
-
-Lemma vfo_colon : forall a b c,
-  no_char ";" a = true -> no_char ";" b = true -> no_char ";" c = true ->
-  no_char ":" a = true -> no_char ":" b = true -> no_char ":" c = true ->
-  values_from_outside (a ++ ":" ++ b ++ ":" ++ c) =
-  Some [("id", PStr (py_strip (mass_replace a))); ("name", PStr (py_strip (mass_replace b))); ("type", PStr (py_strip (mass_replace c)))].
-Proof.
-  intros a b c Ha Hb Hc Ha' Hb' Hc'. unfold values_from_outside.
-  assert (E1 : no_char ";" (a ++ ":" ++ b ++ ":" ++ c) = true) by nc.
-  assert (E2 : no_char ":" (a ++ ":" ++ b ++ ":" ++ c) = false).
-  { rewrite no_char_app. cbn [append no_char]. rewrite Ascii.eqb_refl. cbn [negb andb]. apply andb_false_r. }
-  rewrite E1, E2. cbn [andb negb].
-  assert (E3 : split_on ":" (a ++ ":" ++ b ++ ":" ++ c) = [a; b; c]).
-  { cbn [append]. rewrite !split_on_app, !split_on_none by assumption. reflexivity. }
-  rewrite E3. reflexivity.
-Qed.
-
-Lemma headok_parts : forall id nm ty, headok id nm ty = true ->
-  (allc plain_char id = true /\ no_char ":" id = true /\ py_strip id = id /\ id <> "") /\
-  (match nm with Some s => allc plain_char s = true /\ no_char ":" s = true /\ py_strip s = s | None => True end) /\
-  (allc plain_char ty = true /\ no_char ":" ty = true /\ py_strip ty = ty /\ ty <> "").
-Proof.
-  intros id nm ty H. unfold headok, textok in H. split_and.
-  repeat match goal with H : String.eqb _ _ = true |- _ => apply String.eqb_eq in H end.
-  repeat match goal with H : negb (String.eqb _ _) = true |- _ => apply negb_true_iff in H; apply String.eqb_neq in H end.
-  repeat match goal with H : plain _ = true |- _ => rewrite plain_allc in H end.
-  split; [|split].
-  - repeat split; assumption.
-  - destruct nm as [s|]; [|exact Logic.I]. split_and.
-    repeat match goal with H : String.eqb _ _ = true |- _ => apply String.eqb_eq in H end.
-    repeat match goal with H : plain _ = true |- _ => rewrite plain_allc in H end.
-    repeat split; assumption.
-  - repeat split; assumption.
-Qed.
-
-Lemma head_pq : forall id nm ty, headok id nm ty = true -> allc pqc (head_text id nm ty) = true.
-Proof.
-  intros id nm ty H. destruct (headok_parts _ _ _ H) as [[Hi _] [Hn [Ht _]]].
-  unfold head_text, qname, dq. destruct nm as [s|]; [destruct Hn as [Hs _]|]; cls.
-Qed.
-
-Lemma name_clean : forall nm,
-  match nm with Some s => allc plain_char s = true /\ no_char ":" s = true /\ py_strip s = s | None => True end ->
-  py_strip (mass_replace (qname nm)) = name_text nm.
-Proof.
-  intros nm H. destruct nm as [s|]; [|vm_compute; reflexivity]. destruct H as [Hs [_ Hp]].
-  unfold qname, name_text, dq. rewrite mass_pq by cls. rewrite !keepm_app, (keepm_plain _ Hs).
-  change (keepm (String DQ "")) with "". cbn [append]. rewrite sapp_nil_r. exact Hp.
-Qed.
-
-Lemma values_header : forall id nm ty, headok id nm ty = true ->
-  values_from_outside (repr_body SQ (head_text id nm ty)) = Some [("id", PStr id); ("name", PStr (name_text nm)); ("type", PStr ty)].
-Proof.
-  intros id nm ty H. rewrite (repr_pq _ (head_pq _ _ _ H)).
-  destruct (headok_parts _ _ _ H) as [[Hi [Hi1 [Hi2 Hi3]]] [Hn [Ht [Ht1 [Ht2 Ht3]]]]].
-  unfold head_text. rewrite vfo_colon.
-  - rewrite (name_clean nm Hn). rewrite (mass_psq id) by cls. rewrite Hi2.
-    rewrite (mass_psq (ty ++ " ")) by cls. unfold py_strip at 1. rewrite rstrip_blank by reflexivity.
-    fold (py_strip ty). rewrite Ht2. reflexivity.
-  - nc.
-  - unfold qname, dq. destruct nm as [s|]; [destruct Hn as [Hs _]|]; nc.
-  - nc.
-  - nc.
-  - unfold qname, dq. destruct nm as [s|]; [destruct Hn as [_ [Hs _]]|]; nc.
-  - nc.
-Qed.
-Print Assumptions values_header.
-
-Lemma values_header_top : forall id nm ty, headok id nm ty = true ->
-  values_from_outside (String "b" (String SQ (repr_body SQ (head_text id nm ty) ++ String SQ ""))) =
-  Some [("id", PStr (String "b" (String SQ id))); ("name", PStr (name_text nm)); ("type", PStr (ty ++ " '"))].
-Proof.
-  intros id nm ty H. rewrite (repr_pq _ (head_pq _ _ _ H)).
-  destruct (headok_parts _ _ _ H) as [[Hi [Hi1 [Hi2 Hi3]]] [Hn [Ht [Ht1 [Ht2 Ht3]]]]].
-  unfold head_text.
-  replace (String "b" (String SQ ((id ++ ":" ++ qname nm ++ ":" ++ ty ++ " ") ++ String SQ "")))
-    with ((String "b" (String SQ id)) ++ ":" ++ qname nm ++ ":" ++ (ty ++ String " " (String SQ "")))
-    by (repeat first [rewrite !sapp_assoc | progress cbn [append]]; reflexivity).
-  assert (Hq : rstrip (String " " (String SQ "")) = String " " (String SQ "")) by (vm_compute; reflexivity).
-  destruct (strip_fix _ Hi2) as [Hir Hil]. destruct (strip_fix _ Ht2) as [Htr Htl].
-  rewrite vfo_colon.
-  - rewrite (name_clean nm Hn).
-    rewrite (mass_psq (String "b" (String SQ id))) by (change (String "b" (String SQ id)) with (String "b" (String SQ "") ++ id); cls).
-    rewrite (mass_psq (ty ++ String " " (String SQ ""))) by cls.
-    assert (E1 : py_strip (String "b" (String SQ id)) = String "b" (String SQ id)).
-    { unfold py_strip. rewrite !rstrip_cons_ns, Hir by reflexivity. reflexivity. }
-    assert (E2 : py_strip (ty ++ String " " (String SQ "")) = ty ++ String " " (String SQ "")).
-    { unfold py_strip. rewrite rstrip_app_ne, Hq by (rewrite Hq; discriminate). apply lstrip_app; assumption. }
-    rewrite E1, E2. reflexivity.
-  - change (String "b" (String SQ id)) with (String "b" (String SQ "") ++ id). nc.
-  - unfold qname, dq. destruct nm as [s|]; [destruct Hn as [Hs _]|]; nc.
-  - nc.
-  - change (String "b" (String SQ id)) with (String "b" (String SQ "") ++ id). nc.
-  - unfold qname, dq. destruct nm as [s|]; [destruct Hn as [_ [Hs _]]|]; nc.
-  - nc.
-Qed.
-Print Assumptions values_header_top.
-
 (* ---------------------------------------------------------------- field segments: the loop body *)
 
 (* the loop body is UmlBlob.vstep *)
@@ -983,9 +884,20 @@ Print Assumptions seg_atomic.
 Print Assumptions seg_nobrace.
 Print Assumptions qsplit_atomic.
 
-(* ---------------------------------------------------------------- the top-level header when the name may hold colons *)
+(* ---------------------------------------------------------------- headers:  id:"name":Type  cut at the colons outside the quoted name *)
 
+(* the characters of a header: those of a name (printable without the two quotes, the backslash and ';') and the double quote *)
+Definition hdc (c : ascii) : bool := name_char c || Ascii.eqb c DQ.
 Definition pqsc (c : ascii) : bool := plain_char c || Ascii.eqb c DQ || Ascii.eqb c SQ.
+
+Lemma name_chars_allc : forall s, name_chars s = allc name_char s.
+Proof. induction s as [|c s IH]; [reflexivity|]. cbn [name_chars allc]. rewrite IH. reflexivity. Qed.
+
+Lemma repr_hd : forall x, allc hdc x = true -> repr_body SQ x = x.
+Proof. intros x H. rewrite repr_flat. apply (flat_id hdc); [intro c; enum c | exact H]. Qed.
+
+Lemma repr_name : forall s, name_chars s = true -> repr_body SQ s = s.
+Proof. intros s H. rewrite name_chars_allc in H. apply repr_hd. cls. Qed.
 
 Lemma mass_pqs : forall x, allc pqsc x = true -> mass_replace x = keepm x.
 Proof.
@@ -1020,83 +932,238 @@ Proof.
   destruct (Ascii.eqb y c); cbn [forallb allc]; rewrite ?H1, I1, I2; reflexivity.
 Qed.
 
-(* the header branch on a text of plain characters and quotes: the reader's cleaning of a piece is the deletion of the quotes *)
-Lemma vfo_head_gen : forall X a parts, allc pqsc X = true -> no_char ":" X = false ->
-  split_on ":" (keepm X) = a :: parts -> 2 <= List.length parts ->
-  values_from_outside X =
-  Some [("id", PStr (py_strip a)); ("name", PStr (py_strip (nth 0 parts ""))); ("type", PStr (py_strip (nth 1 parts "")))].
-Proof.
-  intros X a parts HX Hc Hs Hl. unfold values_from_outside.
-  assert (E1 : no_char ";" X = true) by nc. rewrite E1, Hc. cbn [andb negb].
-  pose proof (split_on_allc pqsc ":" X HX) as Hp. rewrite <- (keepm_split ":" X eq_refl) in Hs.
-  destruct (split_on ":" X) as [|x0 [|x1 [|x2 rest]]]; cbn [map] in Hs; try discriminate Hs;
-    injection Hs as Ha Hparts; subst parts; cbn [List.length] in Hl; try lia.
-  subst a. cbn [forallb] in Hp. split_and.
-  cbn [nth_str nth_error bind nth]. rewrite !mass_pqs by assumption. reflexivity.
-Qed.
-
-Lemma headok_top_parts : forall id nm ty, headok_top id nm ty = true ->
-  (allc plain_char id = true /\ no_char ":" id = true /\ py_strip id = id /\ id <> "") /\
-  (match nm with Some s => allc plain_char s = true | None => True end) /\
-  (allc plain_char ty = true /\ no_char ":" ty = true /\ py_strip ty = ty /\ ty <> "").
-Proof.
-  intros id nm ty H. unfold headok_top, textok in H. split_and.
-  repeat match goal with H : String.eqb _ _ = true |- _ => apply String.eqb_eq in H end.
-  repeat match goal with H : negb (String.eqb _ _) = true |- _ => apply negb_true_iff in H; apply String.eqb_neq in H end.
-  repeat match goal with H : plain _ = true |- _ => rewrite plain_allc in H end.
-  split; [|split].
-  - repeat split; assumption.
-  - destruct nm as [s|]; [|exact Logic.I]. split_and.
-    repeat match goal with H : plain _ = true |- _ => rewrite plain_allc in H end. assumption.
-  - repeat split; assumption.
-Qed.
-
-Lemma headok_headok_top : forall id nm ty, headok id nm ty = true -> headok_top id nm ty = true.
-Proof.
-  intros id nm ty H. unfold headok in H. unfold headok_top. split_and.
-  repeat match goal with H : _ = true |- _ => rewrite H end.
-  destruct nm as [s|]; [|reflexivity]. split_and. repeat match goal with H : _ = true |- _ => rewrite H end. reflexivity.
-Qed.
-
 Lemma keepm_qname : forall nm, match nm with Some s => allc plain_char s = true | None => True end -> keepm (qname nm) = name_text nm.
 Proof.
   intros nm H. destruct nm as [s|]; [|reflexivity]. unfold qname, name_text, dq.
   rewrite !keepm_app, (keepm_plain _ H). change (keepm (String DQ "")) with "". cbn [append]. apply sapp_nil_r.
 Qed.
 
-Lemma values_header_top_c : forall id nm ty, headok_top id nm ty = true ->
-  values_from_outside (String "b" (String SQ (repr_body SQ (head_text id nm ty) ++ String SQ ""))) = Some (top_head id nm ty).
+Lemma name_clean : forall nm,
+  match nm with Some s => allc plain_char s = true /\ no_char ":" s = true /\ py_strip s = s | None => True end ->
+  py_strip (mass_replace (qname nm)) = name_text nm.
 Proof.
-  intros id nm ty H. destruct (headok_top_parts _ _ _ H) as [[Hi [Hi1 [Hi2 Hi3]]] [Hn [Ht [Ht1 [Ht2 Ht3]]]]].
-  assert (Hq : allc pqc (qname nm) = true) by (unfold qname, dq; destruct nm as [s|]; cls).
-  assert (Hh : allc pqc (head_text id nm ty) = true) by (unfold head_text; cls).
-  rewrite (repr_pq _ Hh). unfold head_text.
+  intros nm H. destruct nm as [s|]; [|vm_compute; reflexivity]. destruct H as [Hs [_ Hp]].
+  unfold qname, name_text, dq. rewrite mass_pq by cls. rewrite !keepm_app, (keepm_plain _ Hs).
+  change (keepm (String DQ "")) with "". cbn [append]. rewrite sapp_nil_r. exact Hp.
+Qed.
+
+(* --- the string state over raw texts *)
+
+Lemma free_of_nochar : forall bad s st, allc (fun c => negb (existsb (Ascii.eqb c) bad)) s = true -> free_of bad st s = true.
+Proof.
+  intros bad. induction s as [|c s IH]; intros st H; [reflexivity|].
+  cbn [allc] in H. apply andb_true_iff in H. destruct H as [H1 H2].
+  cbn [free_of]. rewrite H1, orb_true_r, (IH _ H2). reflexivity.
+Qed.
+
+Lemma free_of_no_char : forall ch s st, no_char ch s = true -> free_of [ch] st s = true.
+Proof.
+  intros ch s st H. rewrite no_char_allc in H. apply free_of_nochar. revert H. apply allc_imp.
+  intros c Hc. cbn [existsb]. rewrite orb_false_r. exact Hc.
+Qed.
+
+Lemma scan_raw_keep : forall (P : ascii -> bool) i x,
+  (forall c, P c = true -> qstep (nst i) c = nst i) -> allc P x = true -> scan (nst i) x = nst i.
+Proof.
+  intros P i x H. induction x as [|c x IH]; intro Hx; [reflexivity|].
+  cbn [allc] in Hx. apply andb_true_iff in Hx. destruct Hx as [H1 H2]. cbn [scan]. rewrite (H _ H1). exact (IH H2).
+Qed.
+
+(* inside a quoted text nothing is forbidden *)
+Lemma free_raw_quoted : forall bad (P : ascii -> bool) x,
+  (forall c, P c = true -> qstep (nst true) c = nst true) -> allc P x = true -> free_of bad (nst true) x = true.
+Proof.
+  intros bad P x H. induction x as [|c x IH]; intro Hx; [reflexivity|].
+  cbn [allc] in Hx. apply andb_true_iff in Hx. destruct Hx as [H1 H2]. cbn [free_of]. rewrite (H _ H1). exact (IH H2).
+Qed.
+
+Lemma name_step : forall c, name_char c = true -> qstep (nst true) c = nst true.
+Proof. intro c. enum c. Qed.
+Lemma psq_step : forall c, psq c = true -> qstep (nst false) c = nst false.
+Proof. intro c. enum c. Qed.
+
+(* a quoted name: the quotes are its delimiters, whatever it holds *)
+Lemma quoted_raw : forall bad u, name_chars u = true -> existsb (Ascii.eqb DQ) bad = false ->
+  free_of bad qst0 (dq ++ u ++ dq) = true /\ scan qst0 (dq ++ u ++ dq) = qst0.
+Proof.
+  intros bad u H Hb. rewrite name_chars_allc in H. unfold dq.
+  rewrite !free_of_app, !scan_app. change (scan qst0 (String DQ "")) with (nst true).
+  rewrite (scan_raw_keep name_char true u name_step H), (free_raw_quoted bad name_char u name_step H).
+  cbn [free_of scan]. change (qstep qst0 DQ) with (nst true). change (qstep (nst true) DQ) with qst0.
+  cbn [q_in nst qst0 orb]. rewrite Hb. split; reflexivity.
+Qed.
+
+Lemma quoted_atomic_name : forall bad u, name_chars u = true -> existsb (Ascii.eqb DQ) bad = false ->
+  free_of bad qst0 (repr_body SQ (dq ++ u ++ dq)) = true /\ scan qst0 (repr_body SQ (dq ++ u ++ dq)) = qst0.
+Proof.
+  intros bad u H Hb. rewrite repr_hd; [exact (quoted_raw bad u H Hb)|].
+  rewrite name_chars_allc in H. unfold dq. cls.
+Qed.
+
+(* a text of plain characters and apostrophes: no quoted text begins *)
+Lemma psq_scan : forall x, allc psq x = true -> scan qst0 x = qst0.
+Proof. intros x H. exact (scan_raw_keep psq false x psq_step H). Qed.
+
+Lemma qsplit_sep_atomic : forall sep a b, free_of [sep] qst0 a = true -> scan qst0 (a ++ String sep "") = qst0 ->
+  qsplit sep (a ++ String sep b) = a :: qsplit sep b.
+Proof.
+  intros sep a b H Hs. unfold qsplit. rewrite qsplit_st_atomic; [rewrite Hs; reflexivity | exact H | rewrite Hs; reflexivity].
+Qed.
+
+(* --- UnquoteName *)
+
+Lemma substring_prefix : forall v w, substring 0 (String.length v) (v ++ w) = v.
+Proof.
+  induction v as [|c v IH]; intro w; cbn [String.length append substring].
+  - destruct w; reflexivity.
+  - rewrite IH. reflexivity.
+Qed.
+
+Lemma substring_skip : forall a b n, substring (String.length a) n (a ++ b) = substring 0 n b.
+Proof. induction a as [|c a IH]; intros b n; [reflexivity|]. cbn [String.length append substring]. apply IH. Qed.
+
+Lemma strip_quoted : forall s, py_strip (String DQ (s ++ dq)) = String DQ (s ++ dq).
+Proof.
+  intro s. unfold py_strip. change (String DQ (s ++ dq)) with ((String DQ s) ++ dq) at 1.
+  rewrite rstrip_app_ne by (vm_compute; discriminate). change (rstrip dq) with dq. reflexivity.
+Qed.
+
+Lemma unquote_q : forall s, py_strip s = s -> unquote_name (dq ++ s ++ dq) = s.
+Proof.
+  intros s Hs. unfold unquote_name. change (dq ++ s ++ dq) with (String DQ (s ++ dq)). rewrite strip_quoted.
+  cbn [String.length]. rewrite slen_app. change (String.length dq) with 1.
+  replace (S (String.length s + 1) - 1) with (S (String.length s)) by lia.
+  replace (S (String.length s + 1) - 2) with (String.length s) by lia.
+  cbn [substring prefixb]. rewrite Ascii.eqb_refl, substring_skip, substring_prefix, Hs.
+  replace (Nat.leb 2 (S (String.length s + 1))) with true by (symmetry; apply Nat.leb_le; lia).
+  reflexivity.
+Qed.
+
+(* --- the header branch *)
+
+Lemma vfo_colon : forall a b c,
+  no_char ";" a = true -> no_char ";" b = true -> no_char ";" c = true ->
+  free_of [":"]%char qst0 a = true -> scan qst0 (a ++ ":") = qst0 ->
+  free_of [":"]%char qst0 b = true -> scan qst0 (b ++ ":") = qst0 ->
+  free_of [":"]%char qst0 c = true ->
+  values_from_outside (a ++ ":" ++ b ++ ":" ++ c) =
+  Some [("id", PStr (py_strip (mass_replace a))); ("name", PStr (unquote_name b)); ("type", PStr (py_strip (mass_replace c)))].
+Proof.
+  intros a b c Ha Hb Hc Fa Sa Fb Sb Fc. unfold values_from_outside.
+  assert (E1 : no_char ";" (a ++ ":" ++ b ++ ":" ++ c) = true) by nc.
+  assert (E2 : no_char ":" (a ++ ":" ++ b ++ ":" ++ c) = false) by (cbn [append]; apply nc_mid).
+  rewrite E1, E2. cbn [andb negb].
+  assert (E3 : qsplit ":" (a ++ ":" ++ b ++ ":" ++ c) = [a; b; c]).
+  { cbn [append]. rewrite (qsplit_sep_atomic ":" a _ Fa Sa), (qsplit_sep_atomic ":" b _ Fb Sb), (qsplit_none ":" c Fc). reflexivity. }
+  rewrite E3. reflexivity.
+Qed.
+
+Lemma headok_parts : forall id nm ty, headok id nm ty = true ->
+  (allc plain_char id = true /\ no_char ":" id = true /\ py_strip id = id /\ id <> "") /\
+  (match nm with Some s => name_chars s = true /\ py_strip s = s | None => True end) /\
+  (allc plain_char ty = true /\ no_char ":" ty = true /\ py_strip ty = ty /\ ty <> "").
+Proof.
+  intros id nm ty H. unfold headok, textok in H. split_and.
+  repeat match goal with H : String.eqb _ _ = true |- _ => apply String.eqb_eq in H end.
+  repeat match goal with H : negb (String.eqb _ _) = true |- _ => apply negb_true_iff in H; apply String.eqb_neq in H end.
+  repeat match goal with H : plain _ = true |- _ => rewrite plain_allc in H end.
+  split; [|split].
+  - repeat split; assumption.
+  - destruct nm as [s|]; [|exact Logic.I]. unfold nameok in *. split_and.
+    repeat match goal with H : String.eqb _ _ = true |- _ => apply String.eqb_eq in H end.
+    split; assumption.
+  - repeat split; assumption.
+Qed.
+
+Lemma headok_headok_top : forall id nm ty, headok id nm ty = true -> headok_top id nm ty = true.
+Proof. intros id nm ty H. exact H. Qed.
+
+Lemma headok_top_parts : forall id nm ty, headok_top id nm ty = true ->
+  (allc plain_char id = true /\ no_char ":" id = true /\ py_strip id = id /\ id <> "") /\
+  (match nm with Some s => name_chars s = true /\ py_strip s = s | None => True end) /\
+  (allc plain_char ty = true /\ no_char ":" ty = true /\ py_strip ty = ty /\ ty <> "").
+Proof. intros id nm ty H. exact (headok_parts id nm ty H). Qed.
+
+Lemma head_hd : forall id nm ty, headok id nm ty = true -> allc hdc (head_text id nm ty) = true.
+Proof.
+  intros id nm ty H. destruct (headok_parts _ _ _ H) as [[Hi _] [Hn [Ht _]]].
+  unfold head_text, qname, dq. destruct nm as [s|]; [destruct Hn as [Hs _]; rewrite name_chars_allc in Hs|]; cls.
+Qed.
+
+(* the name field: "name" or NULL *)
+Lemma qname_field : forall nm, match nm with Some s => name_chars s = true /\ py_strip s = s | None => True end ->
+  no_char ";" (qname nm) = true /\ free_of [":"]%char qst0 (qname nm) = true /\ scan qst0 (qname nm ++ ":") = qst0 /\
+  unquote_name (qname nm) = name_text nm.
+Proof.
+  intros nm H. destruct nm as [s|]; [|vm_compute; repeat split; reflexivity]. destruct H as [Hs Hp].
+  destruct (quoted_raw [":"]%char s Hs eq_refl) as [A1 A2]. unfold qname, name_text.
+  split; [|split; [exact A1|split]].
+  - rewrite name_chars_allc in Hs. unfold dq. nc.
+  - rewrite scan_app, A2. reflexivity.
+  - apply unquote_q. exact Hp.
+Qed.
+
+Lemma values_header : forall id nm ty, headok id nm ty = true ->
+  values_from_outside (repr_body SQ (head_text id nm ty)) = Some [("id", PStr id); ("name", PStr (name_text nm)); ("type", PStr ty)].
+Proof.
+  intros id nm ty H. rewrite (repr_hd _ (head_hd _ _ _ H)).
+  destruct (headok_parts _ _ _ H) as [[Hi [Hi1 [Hi2 Hi3]]] [Hn [Ht [Ht1 [Ht2 Ht3]]]]].
+  destruct (qname_field nm Hn) as [Q1 [Q2 [Q3 Q4]]].
+  unfold head_text. rewrite vfo_colon.
+  - rewrite Q4. rewrite (mass_psq id) by cls. rewrite Hi2.
+    rewrite (mass_psq (ty ++ " ")) by cls. unfold py_strip at 1. rewrite rstrip_blank by reflexivity.
+    fold (py_strip ty). rewrite Ht2. reflexivity.
+  - nc.
+  - exact Q1.
+  - nc.
+  - apply free_of_no_char. exact Hi1.
+  - rewrite scan_app, psq_scan by cls. reflexivity.
+  - exact Q2.
+  - exact Q3.
+  - apply free_of_no_char. nc.
+Qed.
+Print Assumptions values_header.
+
+Lemma values_header_top : forall id nm ty, headok id nm ty = true ->
+  values_from_outside (String "b" (String SQ (repr_body SQ (head_text id nm ty) ++ String SQ ""))) =
+  Some [("id", PStr (String "b" (String SQ id))); ("name", PStr (name_text nm)); ("type", PStr (ty ++ " '"))].
+Proof.
+  intros id nm ty H. rewrite (repr_hd _ (head_hd _ _ _ H)).
+  destruct (headok_parts _ _ _ H) as [[Hi [Hi1 [Hi2 Hi3]]] [Hn [Ht [Ht1 [Ht2 Ht3]]]]].
+  destruct (qname_field nm Hn) as [Q1 [Q2 [Q3 Q4]]].
+  unfold head_text.
   replace (String "b" (String SQ ((id ++ ":" ++ qname nm ++ ":" ++ ty ++ " ") ++ String SQ "")))
     with ((String "b" (String SQ "") ++ id) ++ ":" ++ qname nm ++ ":" ++ (ty ++ String " " (String SQ "")))
     by (repeat first [rewrite !sapp_assoc | progress cbn [append]]; reflexivity).
   set (A := String "b" (String SQ "") ++ id). set (T := ty ++ String " " (String SQ "")).
   assert (HA : allc psq A = true) by (unfold A; cls).
   assert (HT : allc psq T = true) by (unfold T; cls).
-  assert (HAc : no_char ":" A = true) by (unfold A; nc).
-  assert (HTc : no_char ":" T = true) by (unfold T; nc).
-  rewrite (vfo_head_gen _ A (split_on ":" (name_text nm) ++ [T])%list).
-  - unfold top_head. destruct (strip_fix _ Hi2) as [Hir Hil].
-    assert (E1 : py_strip A = A).
+  assert (Hq : rstrip (String " " (String SQ "")) = String " " (String SQ "")) by (vm_compute; reflexivity).
+  destruct (strip_fix _ Hi2) as [Hir Hil]. destruct (strip_fix _ Ht2) as [Htr Htl].
+  rewrite vfo_colon.
+  - rewrite Q4, (mass_psq A HA), (mass_psq T HT).
+    assert (E1 : py_strip A = String "b" (String SQ id)).
     { unfold A. cbn [append]. unfold py_strip. rewrite !rstrip_cons_ns, Hir by reflexivity. reflexivity. }
-    rewrite E1. reflexivity.
-  - cls.
-  - cbn [append]. apply nc_mid.
-  - rewrite (keepm_app A), (keepm_app ":"), (keepm_app (qname nm)), (keepm_app ":"), (keepm_psq _ HA), (keepm_psq _ HT), (keepm_qname _ Hn).
-    change (keepm ":") with ":". cbn [append]. rewrite split_on_app, split_on_app, (split_on_none _ A HAc), (split_on_none _ T HTc). reflexivity.
-  - rewrite app_length. cbn [List.length]. pose proof (split_on_nonempty ":" (name_text nm)) as Hne.
-    destruct (split_on ":" (name_text nm)); [congruence | cbn [List.length]; lia].
+    assert (E2 : py_strip T = ty ++ " '").
+    { unfold T, py_strip. rewrite rstrip_app_ne, Hq by (rewrite Hq; discriminate). apply lstrip_app; assumption. }
+    rewrite E1, E2. reflexivity.
+  - unfold A. nc.
+  - exact Q1.
+  - unfold T. nc.
+  - apply free_of_no_char. unfold A. nc.
+  - rewrite scan_app, (psq_scan A HA). reflexivity.
+  - exact Q2.
+  - exact Q3.
+  - apply free_of_no_char. unfold T. nc.
 Qed.
-Print Assumptions values_header_top_c.
+Print Assumptions values_header_top.
 
-(* a name without colon: the header of values_header_top *)
+(* (the statements written before the repair of K-C19-7: now the same facts) *)
 Lemma top_head_plain : forall id nm ty, headok id nm ty = true ->
   top_head id nm ty = [("id", PStr (String "b" (String SQ id))); ("name", PStr (name_text nm)); ("type", PStr (ty ++ " '"))].
-Proof.
-  intros id nm ty H. pose proof (values_header_top_c _ _ _ (headok_headok_top _ _ _ H)) as E.
-  rewrite (values_header_top _ _ _ H) in E. symmetry. exact (f_equal (fun o => match o with Some x => x | None => top_head id nm ty end) E).
-Qed.
+Proof. reflexivity. Qed.
+
+Lemma values_header_top_c : forall id nm ty, headok_top id nm ty = true ->
+  values_from_outside (String "b" (String SQ (repr_body SQ (head_text id nm ty) ++ String SQ ""))) = Some (top_head id nm ty).
+Proof. intros id nm ty H. exact (values_header_top id nm ty H). Qed.
+Print Assumptions values_header_top_c.
